@@ -294,6 +294,10 @@ def run(ctx: Ctx) -> None:
                 if bare and got != bare:
                     ctx.fail("verbatim:container-prefix", "a verbatim block behind a container prefix does not hold the content of the bare block",
                              {"input": doc, "cfg": gens.FIXED_CFGS[0], "bare": bare, "wrapped": got})
+        bad = quote_code_oracle(ctx)
+        if bad:
+            ctx.fail("verbatim:columns", "the content of an indented code block inside a block quote is not its source line with exactly four "
+                     "columns removed behind the quote marker", bad)
     finally:
         drv.close()
     ctx.partial += [
@@ -311,7 +315,58 @@ def run(ctx: Ctx) -> None:
     ]
 
 
+def strip_cols(line: str, start: int, n: int) -> str:
+    """CommonMark: remove `n` columns of indentation from the character at column `start` on (the prefix before it holds no tab);
+    a tab that is only partly consumed leaves the rest of its width as spaces"""
+    col, i, need = start, start, n
+    while need > 0 and i < len(line) and line[i] in " \t":
+        w = 1 if line[i] == " " else 4 - col % 4
+        if w > need:
+            return " " * (w - need) + line[i + 1:]
+        need -= w
+        col += w
+        i += 1
+    return line[i:]
+
+
+def quote_code_family():
+    """an indented code block inside a block quote whose marker stands at a different column on every line, the removed indentation
+    spelled with spaces and tabs: (document, expected content), the expectation computed from the columns alone"""
+    import itertools
+    ws = ["    ", "\t", " \t", "  \t", "   \t", "\t\t", "    \t", "\t ", "     ", "\t\t ", "  \t\t"]
+    for a in itertools.product(range(4), repeat=2):
+        for w in itertools.product(ws, repeat=2):
+            lines = [" " * a[k] + "> " + w[k] + "xy"[k] for k in range(2)]
+            exp = "".join(strip_cols(lines[k], a[k] + 2, 4) + "\n" for k in range(2))
+            yield "\n".join(lines) + "\n", exp
+
+
+def quote_code_oracle(ctx: Ctx):
+    from markdown_it import MarkdownIt
+    md = MarkdownIt("commonmark")
+    n = 0
+    for doc, exp in quote_code_family():
+        try:
+            toks = md.parse(doc)
+        except Exception:
+            continue
+        if [t.type for t in toks] != ["blockquote_open", "code_block", "blockquote_close"]:
+            continue
+        n += 1
+        if ctx is not None:
+            ctx.count((doc, "quote-code"), nontrivial=True)
+        if toks[1].content != exp:
+            return {"input": doc, "cfg": gens.FIXED_CFGS[0], "want_content": exp, "got_content": toks[1].content}
+    if ctx is not None:
+        ctx.cov["quote_code_column_cases"] = n
+    return None
+
+
 def search(ctx: Ctx):
+    bad = quote_code_oracle(None)
+    if bad:
+        return Finding("verbatim:columns", "the content of an indented code block inside a block quote is not its source line with exactly four "
+                       "columns removed behind the quote marker", bad)
     c = Ctx(ctx.pid, "quick", ctx.seed + 19)
     mds = [(gens.make_md(cf), cf) for cf in (gens.FIXED_CFGS[0], gens.FIXED_CFGS[1])]
     for i in range(20000):
@@ -327,6 +382,10 @@ def search(ctx: Ctx):
 
 
 def replay(ctx: Ctx, obj: dict) -> bool:
+    if "want_content" in obj:
+        from markdown_it import MarkdownIt
+        toks = MarkdownIt("commonmark").parse(obj["input"])
+        return len(toks) > 1 and toks[1].content == obj["want_content"]
     if "bare" in obj:
         from markdown_it import MarkdownIt
         return [t.content for t in MarkdownIt("commonmark").parse(obj["input"]) if t.type in ("code_block", "fence", "html_block")] == obj["bare"]
